@@ -8,6 +8,8 @@ import (
 	"crypto"
 	"errors"
 	"io"
+	"sort"
+	"strconv"
 )
 
 // Hooks for the /verif harness, properties C25 and C26 (packet ciphers). Add-only; compiled only with -tags verif.
@@ -143,4 +145,56 @@ func (v *VerifCipher) WritePacketShared(rand io.Reader, payload []byte) ([]byte,
 	w := bufio.NewWriter(&buf)
 	err := v.cs.writePacket(w, rand, payload, false)
 	return buf.Bytes(), err
+}
+
+// VerifCipherTable lists cipherModes as "name:keySize:ivSize:aead" (sorted), VerifMACTable lists macModes as
+// "name:keySize:etm:size" (sorted): the package's own tables, for comparison with the model's.
+func VerifCipherTable() []string {
+	var names, out []string
+	for name := range cipherModes {
+		names = append(names, name)
+	}
+	sort.Strings(names)
+	for _, name := range names {
+		m := cipherModes[name]
+		aead := 0
+		if aeadCiphers[name] {
+			aead = 1
+		}
+		out = append(out, name+":"+itoa(m.keySize)+":"+itoa(m.ivSize)+":"+itoa(aead))
+	}
+	return out
+}
+
+func VerifMACTable() []string {
+	var names, out []string
+	for name := range macModes {
+		names = append(names, name)
+	}
+	sort.Strings(names)
+	for _, name := range names {
+		m := macModes[name]
+		etm := 0
+		if m.etm {
+			etm = 1
+		}
+		out = append(out, name+":"+itoa(m.keySize)+":"+itoa(etm)+":"+itoa(m.new(make([]byte, m.keySize)).Size()))
+	}
+	return out
+}
+
+func itoa(n int) string { return strconv.Itoa(n) }
+
+// VerifNewPacketCipher is newPacketCipher itself: key, IV and MAC key are derived with generateKeyMaterial from
+// (K, H, session id) under the direction's tags (client to server: A, C, E; server to client: B, D, F).
+func VerifNewPacketCipher(clientToServer bool, cipher, mac string, k, h, sessionID []byte, hash crypto.Hash, seq uint32) (*VerifCipher, error) {
+	d := serverKeys
+	if clientToServer {
+		d = clientKeys
+	}
+	pc, err := newPacketCipher(d, DirectionAlgorithms{Cipher: cipher, MAC: mac}, &kexResult{K: k, H: h, SessionID: sessionID, Hash: hash})
+	if err != nil {
+		return nil, err
+	}
+	return &VerifCipher{cs: &connectionState{packetCipher: pc, seqNum: seq, pendingKeyChange: make(chan packetCipher, 1)}}, nil
 }
